@@ -29,6 +29,12 @@ Definition config_of_build (debug_assertions : bool) (features : list string) : 
            (debug_assertions || has_feature "safe_vm_opcodes" features)
            (debug_assertions || has_feature "safe_class_lookup" features).
 
+Definition show_b (b : bool) : string := if b then "T" else "F".
+Definition show_config (c : config) : string :=
+  "gc_always=" ++ show_b (gc_always c) ++ " stack_checked=" ++ show_b (stack_checked c) ++
+  " fiber_cell=" ++ show_b (fiber_cell c) ++ " opcodes_checked=" ++ show_b (opcodes_checked c) ++
+  " class_lookup_checked=" ++ show_b (class_lookup_checked c).
+
 Definition all_checked : config := mkConfig true true true true true.
 Definition all_raw : config := mkConfig false false false false false.
 
